@@ -13,6 +13,11 @@ use crate::world::World;
 
 pub struct C03;
 
+// thorough tier: every byte offset of every corpus script, truncated there /
+// corrupted there
+pub const ENUM_P: u64 = 352;
+pub const ENUM_E: u64 = 2 * 1536;
+
 const WORLD_DIMS: &[&str] = &["rand", "cwd_name", "rel", "file_name", "spelling", "stdout", "merged"];
 
 fn pick_program(ctx: &Ctx, rng: &mut Rng) -> programs::Picked {
@@ -56,10 +61,10 @@ impl Property for C03 {
         "fault_enumeration"
     }
     fn runs(&self, tier: &str) -> u64 {
-        if tier == "thorough" { 1_000_000 } else { 40_000 }
+        if tier == "thorough" { 1_500_000 } else { 40_000 }
     }
     fn rule(&self) -> String {
-        "case = (printing program from W1 | W2) x (delivery mode: chunked reads at PRNG boundaries incl. inside multi-byte characters, wrong size hint, EINTR bursts | read error at the n-th read | open error (7 errnos) | getcwd error | stored byte replaced by an invalid UTF-8 byte at a PRNG offset | inter-token space replaced by a character no token starts with (W2 only) | truncated delivery at a PRNG offset); oracle: invisible deliveries => reference transcript; read/open/cwd/encoding faults => empty stdout, no fd-1 write attempted, exit 103, exactly one stderr line starting with argv[1]; lexical corruption => same plus located form with line <= lines+1; truncation => exit in {0,103}, stderr empty iff exit 0, located line bound; on every run all script reads and the close precede the first stdout write; non-trivial = fault/delivery event fired; distinct = distinct (program, world, plan)".to_string()
+        "thorough tier additionally enumerates, for every corpus script up to 1536 bytes, truncation at every byte offset and an invalid UTF-8 byte at every byte offset; sampled cases: case = (printing program from W1 | W2) x (delivery mode: chunked reads at PRNG boundaries incl. inside multi-byte characters, wrong size hint, EINTR bursts | read error at the n-th read | open error (7 errnos) | getcwd error | stored byte replaced by an invalid UTF-8 byte at a PRNG offset | inter-token space replaced by a character no token starts with (W2 only) | truncated delivery at a PRNG offset); oracle: invisible deliveries => reference transcript; read/open/cwd/encoding faults => empty stdout, no fd-1 write attempted, exit 103, exactly one stderr line starting with argv[1]; lexical corruption => same plus located form with line <= lines+1; truncation => exit in {0,103}, stderr empty iff exit 0, located line bound; on every run all script reads and the close precede the first stdout write; non-trivial = fault/delivery event fired; distinct = distinct (program, world, plan)".to_string()
     }
     fn assumptions(&self) -> Vec<String> {
         vec![
@@ -71,7 +76,21 @@ impl Property for C03 {
         vec!["mode:invisible".into(), "mode:read-error".into(), "mode:open-error".into(), "mode:cwd-error".into(), "mode:flip-utf8".into(), "mode:flip-illegal".into(), "mode:eof-early".into(), "read-split-codepoint".into()]
     }
 
-    fn gen_case(&self, ctx: &Ctx, worker: usize, rng: &mut Rng, _index: u64) -> Case {
+    fn gen_case(&self, ctx: &Ctx, worker: usize, rng: &mut Rng, index: u64) -> Case {
+        if ctx.tier == "thorough" && index < ENUM_P * ENUM_E && !ctx.corpus.is_empty() {
+            let prog_i = (index % ENUM_P) as usize % ctx.corpus.len();
+            let slot = index / ENUM_P;
+            let sc = &ctx.corpus[prog_i];
+            let off = slot / 2;
+            let mut plan = Plan::new();
+            if slot % 2 == 0 {
+                plan.items.push(Item::Eof { k: off });
+            } else {
+                plan.items.push(Item::Flip { off, bytes: vec![0xff] });
+            }
+            let aux = serde_json::json!({"enum": {"program": prog_i, "slot": slot}});
+            return Case { label: format!("W1:{}", sc.name), program: sc.src.clone(), aux, world: World::reference(), plan };
+        }
         let mut p = pick_program(ctx, rng);
         let mode = rng.below(16);
         if mode == 9 || mode == 10 {
@@ -148,6 +167,18 @@ impl Property for C03 {
 
     fn check(&self, ctx: &Ctx, worker: usize, case: &Case) -> Outcome {
         let mut out = Outcome::default();
+        if let Some(e) = case.aux.get("enum") {
+            let slot = e.get("slot").and_then(|v| v.as_u64()).unwrap_or(0);
+            let len = case.program.len() as u64;
+            if slot == 0 {
+                out.probes.push(if len * 2 <= ENUM_E { "enum:program-fully-enumerated".into() } else { "enum:program-partly-enumerated".into() });
+            }
+            if slot / 2 >= len {
+                out.skipped = Some("enum-slot-beyond-run".into());
+                return out;
+            }
+            out.probes.push("enum:case".into());
+        }
         let reference = ctx.reference(worker, &case.program);
         if oracle::is_crash(&reference.status) {
             out.skipped = Some("reference-run-crashes".into());
